@@ -290,6 +290,22 @@ func InjectNil(p proto.Message, num int) bool {
 	return false
 }
 
+// InjectNilKeyLen adds a nil message value under a string key of keyLen bytes to the map<string, message> field num (the
+// size of a map entry decides how many bytes its length prefix takes: keys around 122 and 16377 bytes sit at the boundaries).
+func InjectNilKeyLen(p proto.Message, num, keyLen int) bool {
+	f := StructFieldFor(p, num)
+	if !f.IsValid() || f.Kind() != reflect.Map || f.Type().Elem().Kind() != reflect.Ptr || f.Type().Key().Kind() != reflect.String {
+		return false
+	}
+	if f.IsNil() {
+		f.Set(reflect.MakeMap(f.Type()))
+	}
+	k := reflect.New(f.Type().Key()).Elem()
+	k.SetString(strings.Repeat("z", keyLen))
+	f.SetMapIndex(k, reflect.Zero(f.Type().Elem()))
+	return true
+}
+
 // InjectNilOneof makes the oneof that fd belongs to hold fd's wrapper with a nil message inside (a state plain Go code
 // builds with &T_Member{}). fd must be a oneof member of message kind.
 func InjectNilOneof(p proto.Message, fd protoreflect.FieldDescriptor) bool {
